@@ -17,7 +17,7 @@ RULE = (
     "over declared auxiliaries, and its minimisers compared with the inputs that make the fewest return bits true; variables mentioned, model method per format, unknown format, "
     "decode_samples per argument type; non-trivial = the function is non-constant; distinct by source"
 )
-DECIDING = ["models_built", "assignments_evaluated", "formats_checked", "decode_samples_checked"]
+DECIDING = ["models_built", "assignments_evaluated", "formats_checked", "decode_samples_checked", "decode_partial_samples_checked"]
 ASSUMPTIONS = ["pyqubo is not installed: the observation point of the property (the expression tree handed to the modelling library) is served by a stand-in module on the workers' sys.path "
                "with pyqubo's documented semantics for Binary/Not/And/Or/Xor/*Const/+/compile; what pyqubo does when producing ising/qubo dictionaries is outside the claim"]
 CASE_TIMEOUT = {"quick": 20, "thorough": 120}
@@ -186,6 +186,34 @@ def _check_inner(case):
                     break
         except Exception as e:
             fail("decode_samples_exception", f"{type(e).__name__}: {e}")
+        # samples as a sampler returns them: only the variables the model mentions (the function may ignore some argument
+        # bits).  Whatever is done with the unspelled bits, the decoded values must be spelled by SOME completion of the sample
+        try:
+            used_in = [nm for nm in names if nm in models["bqm"].variables()]
+            missing_ix = [i for i, nm in enumerate(names) if nm not in used_in]
+            if used_in and 0 < len(missing_ix) <= 6:
+                psamples, ks = [], []
+                for _ in range(6):
+                    k = rng.randrange(sp.N)
+                    psamples.append({nm: (k >> i) & 1 for i, nm in enumerate(names) if nm in used_in})
+                    ks.append(k)
+                dec = decode_samples(qf, psamples)
+                cnt["decode_partial_samples_checked"] = cnt.get("decode_partial_samples_checked", 0) + len(dec)
+                for d, k, s_ in zip(dec, ks, psamples):
+                    ok = False
+                    for fill in range(1 << len(missing_ix)):
+                        k2 = k
+                        for j, i in enumerate(missing_ix):
+                            k2 = (k2 & ~(1 << i)) | (((fill >> j) & 1) << i)
+                        e = {a[0]: v for a, v in zip(args, progsem.decode_row(args, k2))}
+                        if set(d.sample) == set(e) and all(_same(t, d.sample[nm], e[nm]) for nm, t in args):
+                            ok = True
+                            break
+                    if not ok:
+                        fail("decode_partial_sample", f"sample {s_} (the variables the model mentions) decoded to {d.sample}: no completion of the unspelled bits {[names[i] for i in missing_ix]} spells these values")
+                        break
+        except Exception as e:
+            fail("decode_partial_samples_exception", f"{type(e).__name__}: {e}")
     return {"status": "checked", "key": src, "nontrivial": nonconst, "evals": sp.N, "fails": fails, "counters": cnt, "cov": [f"ret:{codec.annotation(ret, 1)[:12]}", f"n:{n}"], "sample": src}
 
 
